@@ -18,9 +18,7 @@ namespace detail
 	};
 
 	template<int N, typename T, qualifier Q, int E0, int E1, int E2, int E3, bool UseSimd>
-	struct _swizzle_base1 : public _swizzle_base0<T, N>
-	{
-	};
+	struct _swizzle_base1;
 
 	template<int N, typename T, qualifier Q, int E0, int E1, int E2, int E3>
 	struct _swizzle_base1<N, T, Q, E0, E1, E2, E3, false> : public _swizzle_base0<T, N>
@@ -44,6 +42,12 @@ namespace detail
 	struct _swizzle_base1<4, T, Q, E0,E1,E2,E3, false> : public _swizzle_base0<T, 4>
 	{
 		GLM_FUNC_QUALIFIER vec<4, T, Q> operator ()()  const { return vec<4, T, Q>(this->elem(E0), this->elem(E1), this->elem(E2), this->elem(E3)); }
+	};
+
+	// Aligned (SIMD) vectors are read element by element like packed ones
+	template<int N, typename T, qualifier Q, int E0, int E1, int E2, int E3>
+	struct _swizzle_base1<N, T, Q, E0, E1, E2, E3, true> : public _swizzle_base1<N, T, Q, E0, E1, E2, E3, false>
+	{
 	};
 
 	// Internal class for implementing swizzle operators
